@@ -111,6 +111,9 @@ def run(ctx):
     ctx.rule('C03.c-unsafe-census', 'unsafe code consists only of target_feature calls, core::arch intrinsics and pointer add/cast feeding them')
     ctx.rule('C03.d-one-eval-poly', 'every Engine::eval_poly reaches utils::eval_poly with its own arguments in order')
     ctx.rule('C03.e-kernel-siblings', 'the multiply and butterfly kernels of Ssse3, Avx2 and Neon compute the same lane-wise expression DAG (value numbering over MIR, intrinsics mapped by table)')
+    ctx.rule('C03.g-truncated-input-zeroed', 'every truncated transform is given a buffer whose tail beyond truncated_size is zeroed: Naive and the optimised engines skip different dead butterflies, so they agree only under that precondition (clause shared with C05.c)')
+    from . import c05
+    ctx.guard('C03.analysable', ctx.shared, {'C05.c-truncated-ifft-zeroed': 'C03.g-truncated-input-zeroed'}, c05.ifft_rule, ctx, ctx.facts('x86_64'), 'x86_64')
     ctx.guard('C03.analysable', kernel_siblings, ctx, {c: ctx.facts(c) for c in cfgs})
     for cfg in cfgs:
         facts = ctx.facts(cfg)
